@@ -26,6 +26,10 @@ def dispatch (cmd : String) (args : List String) : String :=
     | "C13" :: rest => orcC13 rest
     | "C14" :: rest => orcC14 rest
     | "C03" :: rest => orcC03 rest
+    | "C02" :: rest => orcTrace Portus.Rt.checkC02 rest
+    | "C09" :: rest => orcTrace Portus.Rt.checkC09 rest
+    | "C16" :: rest => orcTrace Portus.Rt.checkC16 rest
+    | "C05" :: rest => orcC05 rest
     | _ => "BADORC")
   | _ => "BADCMD"
 
